@@ -235,26 +235,40 @@ class Sim(object):
             if est_steps > 0:
                 s.p = min(s.p, cap / float(est_steps))
             out.append(s)
-        # directed schedules for conflict candidates
+        # directed schedules for conflict candidates: for a pair of iterations (x, y) meeting in one cell
+        #   lost_update(x, y): x is stopped between its load and its store of the cell, y runs through its
+        #                      store, x resumes (and overwrites y's update) -- both role assignments are tried,
+        #                      because an iteration that only adds zero still writes back a stale value;
+        #   reorder:           the later iteration runs completely before the earlier one.
         maxd = int(cfg.get("max_directed", 8))
         if candidates:
             pool = list(candidates)
             front = [c for c in pool if len(c["nonzero"]) >= 2]
-            rest = [c for c in pool if len(c["nonzero"]) < 2]
+            mid = [c for c in pool if len(c["nonzero"]) == 1]
+            rest = [c for c in pool if len(c["nonzero"]) == 0]
             r.shuffle(front)
+            r.shuffle(mid)
             r.shuffle(rest)
-            chosen = (front + rest)[:maxd]
+            chosen = (front + mid + rest)[:maxd]
             for c in chosen:
                 its = c["iterations"]
-                wr = c["writers"]
-                a = wr[0]
-                others = [i for i in its if i != a]
-                b = others[-1] if others else a
-                if a == b:
-                    continue
-                lo, hi = (a, b) if a < b else (b, a)
+                nz = c["nonzero"]
+                # prefer a pair with as many non-zero contributors as possible
+                pref = [i for i in its if i in nz] + [i for i in its if i not in nz]
+                x, y = pref[0], pref[1]
+                lo, hi = (x, y) if x < y else (y, x)
                 rest_its = [i for i in range(n) if i not in (lo, hi)]
-                for mode in ("lost_update", "reorder"):
+                plans = []
+                for first, second in ((lo, hi), (hi, lo)):
+                    if first in c["rmw"]:
+                        plans.append(("lost_update", first, second))
+                plans.append(("reorder", lo, hi))
+                plain = [i for i in c["writers"] if i not in c["rmw"]]
+                if plain:
+                    for first, second in ((lo, hi), (hi, lo)):
+                        if first in c["writers"]:
+                            plans.append(("interpose_after_store", first, second))
+                for mode, a, b in plans:
                     out.append(
                         Schedule(
                             workers=2,
@@ -265,9 +279,9 @@ class Sim(object):
                                 "mode": mode,
                                 "array": c["array"],
                                 "cell": c["cell"],
-                                "a": lo,
-                                "b": hi,
-                                "lists": [[lo] + rest_its, [hi]],
+                                "a": a,
+                                "b": b,
+                                "lists": [[a] + rest_its, [b]],
                             },
                         )
                     )
@@ -379,7 +393,7 @@ class Sim(object):
                     self.out.probe("switch_between_load_and_store", run.preempt_between_load_store)
                 if sched.policy == "directed":
                     self.out.probe("directed_schedules_run")
-                    self.out.fault("directed_lost_update" if sched.directed["mode"] == "lost_update" else "directed_reorder")
+                    self.out.fault("directed_" + sched.directed["mode"])
                 elif sched.policy == "stall":
                     self.out.fault("stalled_worker")
                 elif sched.policy == "pct":
